@@ -2307,7 +2307,9 @@ def run_c12(ctx) -> Corr:
                 "sleeping nodes at the same time (many keys over few nodes, nodes taking turns, ~200 sleeping nodes, few keys "
                 "replaced hundreds of times, a random mixture with awake / unknown destinations, wakes in between and a wake with "
                 "a failing write; 1 500 - 20 000 keys, thorough: up to 250 000), every send returning normally, then every node "
-                "wakes: the last line sent for every key is handed to the transport exactly once. "
+                "wakes: the last line sent for every key is handed to the transport exactly once; plus the caller's own Message "
+                "objects (_c12_object_histories): one instance sent again after an assignment to any attribute, assigned to "
+                "while it is held, used as a template, next to one-call messages. "
                 "non-trivial = distinct (version, destination state, message, flag, fault); scale: distinct held sends")
     corr.notes.append("scale scenarios (_c12_scale): judged by an observational oracle of their own (_c12_scale_oracle: outcome, write "
                       "attempts, the destination's public `sleeping` flag at the time of the send - never the gateway's buffer). The "
